@@ -9,6 +9,7 @@ import (
 	"fmt"
 	"sync"
 	"testing"
+	"time"
 
 	"github.com/pingcap/failpoint"
 	"github.com/pingcap/log"
@@ -36,12 +37,13 @@ func c20Setup(t *testing.T, virtualSleep bool) {
 	}
 }
 
-const c20Rule = "programs of back-off operations (Backoff / BackoffWithCfgAndMaxSleep / BackoffWithMaxSleepTxnLockFast with per-call maxima, kinds of all four jitter forms%s), Clone, Fork, UpdateUsingForked (fork, fork-of-fork and clone-of-fork into an ancestor that did not change since the fork left it), Reset, ResetMaxSleep, context cancellation of any handle, kill/un-kill, over budgets 0..40000(+700000) x weights 1..MaxInt32 x the three constructors; sleeping virtualised by failpoint fastBackoffBySkipSleep; every step judged by a reference accounting fed with the observed sleep: per-kind statistics move with the total; a sleep starts only while budgeted sleep <= budget*weight (=> total <= budget + one step)%s; each sleep <= per-call max, <= cap of the kind, <= min(cap, base*2^(back-offs of that kind so far)); an error without cancel/kill only when the reference budget is used up, and then it is the error of a budgeted kind with the largest accumulated sleep (since creation or since the last Reset; ties and unknown errors accept all); cancelled => error and no sleep recorded; killed => error (a sleep of one regular step during that call is accepted: the statement does not say whether the kill is noticed before or after the step); clone/fork start with the parent's total/per-kind maps; after a merge the ancestor shows the fork's; no operation moves another handle's accounting.  distinct = distinct program shapes (operations, kinds, targets, budget parameters; not the jittered values) among runs that slept and saw an exhaustion, a merge, a cancel hit or a kill hit"
+const c20Rule = "programs of back-off operations (Backoff / BackoffWithCfgAndMaxSleep / BackoffWithMaxSleepTxnLockFast with per-call maxima, kinds of all four jitter forms%s), Clone, Fork, UpdateUsingForked (fork, fork-of-fork and clone-of-fork into an ancestor that did not change since the fork left it), Reset, ResetMaxSleep, contexts of any handle (the root's, a fork's, one installed with SetCtx on a root/clone/fork; own or ancestor) ended by cancel(), by WithCancelCause, the way a deadline ends one (Done closed, Err()==DeadlineExceeded, at a chosen step) or by a real deadline that has already expired, kill/un-kill, over budgets 0..40000(+700000) x weights 1..MaxInt32 x the three constructors; sleeping virtualised by failpoint fastBackoffBySkipSleep; every step judged by a reference accounting fed with the observed sleep: per-kind statistics move with the total; a sleep starts only while budgeted sleep <= budget*weight (=> total <= budget + one step)%s; each sleep <= per-call max, <= cap of the kind, <= min(cap, base*2^(back-offs of that kind so far)); an error without cancel/kill only when the reference budget is used up, and then it is the error of a budgeted kind with the largest accumulated sleep (since creation or since the last Reset; ties and unknown errors accept all); a call made after the driver ended the context (however it ended) => error and no sleep recorded; killed => error (a sleep of one regular step during that call is accepted: the statement does not say whether the kill is noticed before or after the step); clone/fork start with the parent's total/per-kind maps; after a merge the ancestor shows the fork's; no operation moves another handle's accounting.  distinct = distinct program shapes (operations, kinds, targets, budget parameters; not the jittered values) among runs that slept and saw an exhaustion, a merge, a cancel hit or a kill hit"
 
 type c20Agg struct {
 	programs, nontrivial                                                                          int
 	sleeps, zero, cut, exhaust, exhaustMerged, exhaustFork, exhaustExcl, cancelHit, killHit       int
-	forks, clones, merges, resets, kindChecks, skipped, violatedPrograms                          int
+	forks, clones, merges, resets, kindChecks, skipped, violatedPrograms, setctxs                 int
+	endedBy                                                                                       map[string]int
 }
 
 func (a *c20Agg) add(r *vrep.Report, p *c20Prog, st c20Stats) {
@@ -61,6 +63,13 @@ func (a *c20Agg) add(r *vrep.Report, p *c20Prog, st c20Stats) {
 	a.resets += st.resets
 	a.kindChecks += st.kindChecks
 	a.skipped += st.skipped
+	a.setctxs += st.setctxs
+	if a.endedBy == nil {
+		a.endedBy = map[string]int{}
+	}
+	for k, v := range st.endedBy {
+		a.endedBy[k] += v
+	}
 	if st.violated {
 		a.violatedPrograms++
 	}
@@ -89,6 +98,10 @@ func (a *c20Agg) report(r *vrep.Report) {
 	r.Count("exhaustions_of_excluded_cap", a.exhaustExcl)
 	r.Count("longest_kind_checks", a.kindChecks)
 	r.Count("cancel_hits", a.cancelHit)
+	for _, k := range []string{"cancel", "cause", "deadline", "expired", "own", "ancestor", "on-root", "on-fork", "on-clone"} {
+		r.Count("calls_after_ctx_ended:"+k, a.endedBy[k])
+	}
+	r.Count("setctx", a.setctxs)
 	r.Count("kill_hits", a.killHit)
 	r.Count("forks", a.forks)
 	r.Count("clones", a.clones)
@@ -125,6 +138,10 @@ func c20Random(t *testing.T, unit string, wb bool, n int) {
 	r.Floor("longest_kind_checks", 500)
 	r.Floor("merges", 1000)
 	r.Floor("cancel_hits", 100)
+	// counted by the driver's bookkeeping (a call made after it ended the context), not by what the call answered
+	for _, k := range []string{"cancel", "cause", "deadline", "expired", "own", "ancestor", "on-root", "on-fork", "on-clone"} {
+		r.Floor("calls_after_ctx_ended:"+k, 100)
+	}
 	r.Floor("kill_hits", 30)
 	r.Floor("sleeps_cut_by_percall_max", 200)
 	r.Floor("resets", 100)
@@ -139,14 +156,21 @@ func TestVerifC20CoreRandom(t *testing.T) {
 
 func TestVerifC20CoreExhaustive(t *testing.T) {
 	length := vrep.Pick(6, 7)
-	r := vrep.New("C20", "c20-core-exhaustive", fmt.Sprintf("every structurally valid program of %d letters over {back-off kind A, back-off kind B, fork, clone, merge into parent, merge into root, abandon (go back to the creator), Reset} with two NoJitter kinds (2..50 ms, 3..48 ms), budgets 3 and 20, weight 1; same oracle as c20-core-random; distinct = distinct non-trivial programs", length))
+	r := vrep.New("C20", "c20-core-exhaustive", fmt.Sprintf("every structurally valid program of %d letters over {back-off kind A, back-off kind B, fork, clone, merge into parent, merge into root, abandon (go back to the creator), Reset} with two NoJitter kinds (2..50 ms, 3..48 ms), budgets 3 and 20, weight 1, plus every program of one letter less over {back-off, fork, clone, abandon, end own context, end root context, SetCtx(deadline-like), SetCtx(already expired deadline)} with the root context ending by cancel / deadline-like / cancel-cause; same oracle as c20-core-random; distinct = distinct non-trivial programs", length))
 	defer r.Finish(t)
 	c20Setup(t, true)
 	defer failpoint.Disable(c20SkipSleepFP)
 	kinds := c20Kinds(false)
 	var agg c20Agg
 	for _, b := range []int{3, 20} {
-		c20Enumerate(length, "vNoJit", "vTiny", c20Prog{Ctor: "vars", Budget: b, Weight: 1, LockFast: 2}, func(p *c20Prog) {
+		c20Enumerate(length, "abfcmMur", "vNoJit", "vTiny", c20Prog{Ctor: "vars", Budget: b, Weight: 1, LockFast: 2, RootCtx: "cancel"}, func(p *c20Prog) {
+			st := c20Execute(r, p, kinds, false)
+			agg.add(r, p, st)
+		})
+	}
+	// second enumeration: how and where contexts end
+	for _, rootCtx := range []string{"cancel", "deadline", "cause"} {
+		c20Enumerate(length-1, "afcuxXde", "vNoJit", "vTiny", c20Prog{Ctor: "vars", Budget: 20, Weight: 1, LockFast: 2, RootCtx: rootCtx}, func(p *c20Prog) {
 			st := c20Execute(r, p, kinds, false)
 			agg.add(r, p, st)
 		})
@@ -155,27 +179,30 @@ func TestVerifC20CoreExhaustive(t *testing.T) {
 	r.SetExhaustive(true)
 	r.Floor("exhaustions_after_merge", 100)
 	r.Floor("merges", 1000)
+	for _, k := range []string{"cancel", "cause", "deadline", "expired", "own", "ancestor", "on-root", "on-fork", "on-clone"} {
+		r.Floor("calls_after_ctx_ended:"+k, 100)
+	}
 }
 
-// ---------------------------------------------------------------- real sleeping, cancellation during the sleep
+// ---------------------------------------------------------------- real sleeping, contexts ending before / during the sleep
 
-// c20Ctx hands out a Done channel that gets closed at the closeAt-th call of
-// Done(): a cancellation that arrives at an exactly known point of the
-// execution, with no timer involved.
+// c20Ctx hands out a Done channel that gets closed at the closeAt-th
+// consultation of the context (Done() or Err()): an end that arrives at an
+// exactly known point of the execution, with no timer involved.  endErr is what
+// Err() reports afterwards (Canceled, or DeadlineExceeded as a deadline would).
 type c20Ctx struct {
 	context.Context
 	mu      sync.Mutex
 	calls   int
 	closeAt int
 	async   bool // close from another goroutine right after the closeAt-th consultation returned
+	endErr  error
 	ch      chan struct{}
 	closed  bool
 	armed   bool
 }
 
-func (c *c20Ctx) Done() <-chan struct{} {
-	c.mu.Lock()
-	defer c.mu.Unlock()
+func (c *c20Ctx) consult() {
 	c.calls++
 	if c.calls >= c.closeAt && !c.closed && !c.armed {
 		if c.async {
@@ -191,14 +218,21 @@ func (c *c20Ctx) Done() <-chan struct{} {
 			close(c.ch)
 		}
 	}
+}
+
+func (c *c20Ctx) Done() <-chan struct{} {
+	c.mu.Lock()
+	defer c.mu.Unlock()
+	c.consult()
 	return c.ch
 }
 
 func (c *c20Ctx) Err() error {
 	c.mu.Lock()
 	defer c.mu.Unlock()
+	c.consult()
 	if c.closed {
-		return context.Canceled
+		return c.endErr
 	}
 	return nil
 }
@@ -210,78 +244,134 @@ func (c *c20Ctx) isClosed() bool {
 }
 
 func TestVerifC20CoreRealSleep(t *testing.T) {
-	r := vrep.New("C20", "c20-core-realsleep", "real sleeping (failpoint off): a context whose Done channel closes at the k-th consultation (k=1..6: before a back-off call or while it sleeps) or from another goroutine right after consultation 1/3/5 (so the cancellation arrives while the call sleeps however often the code looks at the context), kinds with 300..600 ms steps; oracle: a call that starts after the cancellation returns an error and records nothing; a call during which the cancellation was delivered records no sleep (the sleep is cut by the context), the next call fails; calls before it obey the per-call maximum; decided on recorded milliseconds only, a failing case is repeated three times; distinct = (k, sync/async, kind)")
+	r := vrep.New("C20", "c20-core-realsleep", "real sleeping (failpoint off), kinds with 300..600 ms steps.  (A) a context whose Done channel closes at its k-th consultation (k=1..6: before a back-off call or while it sleeps) or from another goroutine right after consultation 1/3/5, reporting Err()==Canceled or ==DeadlineExceeded afterwards; (B) real timer contexts: a deadline that expired before the first call and a 25 ms timeout that fires while the first call sleeps, as the back-offer's own context or as an ancestor of it, called through the root, a clone and a fork.  oracle, the same however the context ended: a call made after the driver saw the context ended returns an error and records nothing; a call during which it ended records no sleep (the sleep is cut by the context); calls before it obey the per-call maximum; decided on recorded milliseconds only, a failing case is repeated three times; distinct = case descriptors")
 	defer r.Finish(t)
 	c20Setup(t, false)
 	r.Assume("real-sleep unit: the context is consulted before or while sleeping, never only after the sleep (anchor: 'cut by per-call maximum and context')")
 	slow := NewConfig("vSlow", nil, NewBackoffFnCfg(300, 5000, NoJitter), c20ErrE)
 	slowJ := NewConfig("vSlowJ", nil, NewBackoffFnCfg(600, 5000, EqualJitter), c20ErrB)
-	one := func(k int, async bool, cfg *Config) (sig, msg string) {
-		cctx := &c20Ctx{Context: context.Background(), closeAt: k, async: async, ch: make(chan struct{})}
-		bo := NewBackofferWithVars(cctx, 100000, kv.NewVariables(nil))
-		target := (k + 1) / 2
-		for call := 1; call <= target+1; call++ {
-			before := cctx.isClosed()
-			t0 := bo.GetTotalSleep()
-			pcm := 1 // calls before the target really sleep: 1 ms
-			if call >= target {
-				pcm = -1
+
+	// judge one call; ended = the driver saw the context ended before the call
+	judge := func(desc string, bo *Backoffer, cfg *Config, pcm int, ended bool, endedNow func() bool) (sig, msg string, stop bool) {
+		t0 := bo.GetTotalSleep()
+		err := bo.BackoffWithCfgAndMaxSleep(cfg, pcm, fmt.Errorf("raw error of %s", desc))
+		d := bo.GetTotalSleep() - t0
+		r.Eval(1)
+		switch {
+		case ended:
+			r.Count("calls_after_ctx_ended", 1)
+			if err == nil {
+				return "cancel:no-error:real", fmt.Sprintf("%s: the call started after the context had ended (ctx.Err()=%v) and returned nil", desc, bo.GetCtx().Err()), true
 			}
-			err := bo.BackoffWithCfgAndMaxSleep(cfg, pcm, fmt.Errorf("raw %d", call))
-			d := bo.GetTotalSleep() - t0
-			after := cctx.isClosed()
-			r.Eval(1)
-			switch {
-			case before:
-				r.Count("calls_after_cancel", 1)
-				if err == nil {
-					return "cancel:no-error:real", fmt.Sprintf("k=%d call %d started after the cancellation and returned nil", k, call)
-				}
-				if d != 0 {
-					return "cancel:sleep-recorded:real", fmt.Sprintf("k=%d call %d started after the cancellation and recorded %d ms", k, call, d)
-				}
-				return "", ""
-			case after:
-				r.Count("cancelled_during_call", 1)
-				if d != 0 {
-					return "cancel:slept-through:real", fmt.Sprintf("k=%d call %d: the context was cancelled during the call, yet %d ms of sleep were taken and recorded", k, call, d)
-				}
-			default:
-				r.Count("real_sleeps", 1)
-				if pcm >= 0 && d > pcm {
-					return "sleep:exceeds-percall-max:real", fmt.Sprintf("k=%d call %d slept %d > per-call max %d", k, call, d, pcm)
-				}
-				if err != nil {
-					return "exhaust:premature:real", fmt.Sprintf("k=%d call %d failed with %v after %d ms of 200000", k, call, err, t0)
-				}
+			if d != 0 {
+				return "cancel:sleep-recorded:real", fmt.Sprintf("%s: the call started after the context had ended and recorded %d ms", desc, d), true
+			}
+			return "", "", true
+		case endedNow():
+			r.Count("ctx_ended_during_call", 1)
+			if d != 0 {
+				return "cancel:slept-through:real", fmt.Sprintf("%s: the context ended during the call, yet %d ms of sleep were taken and recorded", desc, d), true
+			}
+		default:
+			r.Count("real_sleeps", 1)
+			if pcm >= 0 && d > pcm {
+				return "sleep:exceeds-percall-max:real", fmt.Sprintf("%s slept %d > per-call max %d", desc, d, pcm), true
+			}
+			if err != nil {
+				return "exhaust:premature:real", fmt.Sprintf("%s failed with %v after %d ms of 200000", desc, err, t0), true
 			}
 		}
-		return "", ""
+		return "", "", false
 	}
+	thrice := func(desc string, one func() (string, string)) {
+		fails, sig, msg := 0, "", ""
+		for try := 0; try < 3; try++ {
+			if s, m := one(); s != "" {
+				fails, sig, msg = fails+1, s, m
+			} else {
+				break
+			}
+		}
+		switch {
+		case fails == 3:
+			r.Violate(sig, msg, map[string]any{"case": desc})
+		case fails > 0:
+			r.Inconc("real-sleep case %s failed %d of 3 times (%s)", desc, fails, msg)
+		}
+		r.Distinct(desc)
+	}
+
+	// (A) consultation-counted contexts
 	for kk := 1; kk <= 9; kk++ {
-		// k = 1..6 synchronous; 7..9: asynchronous close right after consultation #1, #3, #5
 		k, async := kk, false
 		if kk > 6 {
 			k, async = (kk-7)*2+1, true
 		}
-		for _, cfg := range []*Config{slow, slowJ} {
-			fails, sig, msg := 0, "", ""
-			for try := 0; try < 3; try++ {
-				if s, m := one(k, async, cfg); s != "" {
-					fails, sig, msg = fails+1, s, m
-				} else {
-					break
-				}
+		for _, endErr := range []error{context.Canceled, context.DeadlineExceeded} {
+			for _, cfg := range []*Config{slow, slowJ} {
+				desc := fmt.Sprintf("A/k=%d/async=%v/%v/%s", k, async, endErr, cfg)
+				thrice(desc, func() (string, string) {
+					cctx := &c20Ctx{Context: context.Background(), closeAt: k, async: async, endErr: endErr, ch: make(chan struct{})}
+					bo := NewBackofferWithVars(cctx, 100000, kv.NewVariables(nil))
+					target := (k + 1) / 2
+					for call := 1; call <= 8; call++ {
+						pcm := 1 // really sleeps 1 ms; only the call expected to meet the end may sleep long
+						if call == target {
+							pcm = -1
+						}
+						sig, msg, stop := judge(fmt.Sprintf("%s call %d", desc, call), bo, cfg, pcm, cctx.isClosed(), cctx.isClosed)
+						if stop {
+							return sig, msg
+						}
+					}
+					return "", ""
+				})
 			}
-			switch {
-			case fails == 3:
-				r.Violate(sig, msg, map[string]any{"k": k, "async": async, "kind": cfg.String()})
-			case fails > 0:
-				r.Inconc("real-sleep case k=%d kind=%s failed %d of 3 times (%s)", k, cfg, fails, msg)
-			}
-			r.Distinct(fmt.Sprintf("%d|%v|%s", k, async, cfg))
 		}
 	}
-	r.Floor("cancelled_during_call", 4)
-	r.Floor("calls_after_cancel", 6)
+	// (B) real timer contexts
+	for _, how := range []string{"expired", "fires-mid-sleep"} {
+		for _, where := range []string{"own", "ancestor"} {
+			for _, who := range []string{"root", "clone", "fork"} {
+				desc := fmt.Sprintf("B/%s/%s/%s", how, where, who)
+				thrice(desc, func() (string, string) {
+					var tctx context.Context
+					var tcancel context.CancelFunc
+					if how == "expired" {
+						tctx, tcancel = context.WithDeadline(context.Background(), time.Unix(1, 0))
+					} else {
+						tctx, tcancel = context.WithTimeout(context.Background(), 25*time.Millisecond)
+					}
+					defer tcancel()
+					ctx := tctx
+					if where == "ancestor" {
+						var c2 context.CancelFunc
+						ctx, c2 = context.WithCancel(context.WithValue(tctx, c20CtxKey{}, 1))
+						defer c2()
+					}
+					bo := NewBackofferWithVars(ctx, 100000, kv.NewVariables(nil))
+					switch who {
+					case "clone":
+						bo = bo.Clone()
+					case "fork":
+						var c3 context.CancelFunc
+						bo, c3 = bo.Fork()
+						defer c3()
+					}
+					ended := func() bool { return bo.GetCtx().Err() != nil }
+					sig, msg, stop := judge(desc+" call 1", bo, slow, -1, ended(), ended)
+					if stop {
+						return sig, msg
+					}
+					<-bo.GetCtx().Done() // barrier: the timer has fired
+					sig, msg, _ = judge(desc+" call 2", bo, slow, -1, true, ended)
+					return sig, msg
+				})
+			}
+		}
+	}
+	r.Floor("ctx_ended_during_call", 10)
+	r.Floor("calls_after_ctx_ended", 40)
 }
+
+type c20CtxKey struct{}
